@@ -131,6 +131,8 @@ type Ref struct {
 	// AltType gives the alternative concrete type for an abstract type ("S" when default is "T").
 	DefaultType, AltType string
 	Quirks               Quirks
+	// Intercept: a fault-capable field interceptor wraps every field (positions "~path")
+	Intercept bool
 
 	Errors    []ErrKey
 	Calls     []string // "path|Type.field" per resolver invocation, "@path" per directive call
@@ -373,6 +375,40 @@ func (r *Ref) Nilable(t *ast.Type) bool {
 }
 
 func (r *Ref) field(obj *ast.Definition, objPath, path string, fd *ast.FieldDefinition, fields []*ast.Field) *Val {
+	// argument coercion through the fault-capable custom scalar happens first (field context)
+	for _, a := range fields[0].Arguments {
+		ad := fd.Arguments.ForName(a.Name)
+		if ad == nil || ad.Type.NamedType != "Boom" {
+			continue
+		}
+		v, err := a.Value.Value(r.Vars)
+		if err != nil || v == nil {
+			continue
+		}
+		key := "unmarshal:" + fmt.Sprint(v)
+		r.Calls = append(r.Calls, key)
+		r.Positions = append(r.Positions, Position{Path: key, Kind: "unmarshal", Nilable: false})
+		switch r.Plan.Get(key) {
+		case "error":
+			r.addErr(path+"."+a.Name, "coercion")
+			r.errAt[path] = true
+			return Null
+		case "panic":
+			r.addErr(path, "panic")
+			return Null
+		}
+	}
+	if r.Intercept {
+		r.Positions = append(r.Positions, Position{Path: "~" + path, Kind: "interceptor"})
+		switch r.Plan.Get("~" + path) {
+		case "error":
+			r.addErr(path, "interceptor")
+			return r.nonNullCheck(fd.Type, path, Null)
+		case "panic":
+			r.addErr(path, "panic")
+			return r.nonNullCheck(fd.Type, path, Null)
+		}
+	}
 	// schema directive @fd wraps the resolver
 	if fd.Directives.ForName("fd") != nil {
 		r.Calls = append(r.Calls, "@"+path)
